@@ -648,7 +648,10 @@ class OpenSystem:
                 dsum = 0.0
                 
                 for n in range(H._data.shape[0]):
-                    dat[n,n] = numpy.exp(-H.data[n,n]/(kB_intK*T))
+                    # kB_intK is in internal units, so must be the energy
+                    with energy_units("int"):
+                        en = H.data[n,n]
+                    dat[n,n] = numpy.exp(-en/(kB_intK*T))
                     dsum += dat[n,n]
 
                 dat *= 1.0/dsum
